@@ -31,6 +31,8 @@ package c17
 
 import (
 	"fmt"
+	"os"
+	"runtime/debug"
 	"sort"
 	"strconv"
 	"strings"
@@ -728,6 +730,9 @@ func safely(f func()) (cls string) {
 	defer func() {
 		if e := recover(); e != nil {
 			cls = classify(e)
+			if os.Getenv("VERIF_DEBUG") != "" {
+				fmt.Fprintf(os.Stderr, "recovered (%s): %v\n%s\n", cls, e, debug.Stack())
+			}
 		}
 	}()
 	f()
@@ -986,7 +991,7 @@ func (r *run) predicate(c px.Context, s *spec, acts []action, hashes []*types.Ha
 	for i, res := range r.defRes {
 		if res != "ok" && res != "fault" && s.wf[i] {
 			admitted := false
-			_ = safely(func() { admitted = px.IsInstance(types.TypeObjectInitHash, hashes[i]) })
+			_ = safely(func() { admitted = admittedBySchema(hashes[i]) })
 			if admitted {
 				add("schema-admitted-rejected", "definition %d is an instance of TypeObjectInitHash and well-formed but was rejected: %s", i, res)
 			}
@@ -1159,6 +1164,35 @@ func (r *run) predicate(c px.Context, s *spec, acts []action, hashes []*types.Ha
 		}
 	}
 	return fs
+}
+
+// admittedBySchema reads the declared schema member by member (the set reading of a Struct: every key of the hash is a
+// declared member whose value is an instance of the member's type, every member that is not optional is present) — on
+// purpose not through StructType.IsInstance, whose matched-count test is part of what is being checked
+func admittedBySchema(h *types.Hash) bool {
+	els := types.TypeObjectInitHash.Elements()
+	ok := true
+	h.EachPair(func(k, v px.Value) {
+		found := false
+		for _, el := range els {
+			if el.Name() == k.String() {
+				found = true
+				if !px.IsInstance(el.Value(), v) {
+					ok = false
+				}
+				break
+			}
+		}
+		if !found {
+			ok = false
+		}
+	})
+	for _, el := range els {
+		if !el.Optional() && !h.IncludesKey2(el.Name()) {
+			ok = false
+		}
+	}
+	return ok
 }
 
 // sameShape: the two types have the same attributes (names, types, kinds, defaults, order) and equality attributes
